@@ -400,6 +400,17 @@ fn load_world(w: &mut Worker, files: BTreeMap<String, Vec<u8>>, shipped: &[u8]) 
     (r, dir)
 }
 
+/// Signed portion of the document the client stored in its datastore as the trusted one of `role`.
+fn stored_signed(ds: &std::path::Path, role: &str) -> Option<J> {
+    let f = match role {
+        "root" => return None,
+        "timestamp" | "snapshot" | "targets" => format!("{role}.json"),
+        d => format!("{d}.json"),
+    };
+    let b = std::fs::read(ds.join(f)).ok()?;
+    J::parse(&b).ok()?.get("signed").cloned()
+}
+
 fn accepted_as(repo: &tough::Repository, role: &str) -> bool {
     match role {
         "root" => repo.root().signed.version.get() == 2,
@@ -458,6 +469,15 @@ fn run_case(w: &mut Worker, c: &Case) -> CaseOut {
             let (r, dir) = load_world(w, files, &wd.shipped);
             let pc = path_class(&m.path());
             let mut observed = "rejected".to_string();
+            // whatever the outcome of the cycle: the datastore must not hold content that was not signed
+            if let Some(stored) = stored_signed(&dir, role) {
+                if refcanon(&stored).ok() != refcanon(s).ok() && refcanon(&stored).ok() == refcanon(&ms).ok() {
+                    out.viol(
+                        format!("used-unsigned:role={role}:mutation={}:stored-as-trusted", m.kind()),
+                        format!("the mutated {role} document was stored in the datastore as trusted; mutation {m:?}"),
+                    );
+                }
+            }
             match &r {
                 Err(client::LoadErr::Watchdog) => out.inconc("watchdog"),
                 Err(_) => {}
@@ -598,6 +618,17 @@ fn run_case(w: &mut Worker, c: &Case) -> CaseOut {
             let mut files = wd.files.clone();
             files.insert(path.clone(), render(from_env, Style::Pretty));
             let (r, dir) = load_world(w, files, &wd.shipped);
+            // even when the cycle fails later on, the swapped document must not have been taken as the
+            // trusted document of the other role (the datastore holds what the client trusted)
+            if let Some(stored) = stored_signed(&dir, serve_as) {
+                // (same-type-tag swaps are the known finding reported below; not duplicated here)
+                if own_type(serve_as) != own_type(from) && refcanon(&stored).ok() == refcanon(from_env.at("signed")).ok() {
+                    out.viol(
+                        format!("swap-accepted:{serve_as}<-{from}:stored-as-trusted"),
+                        format!("the document signed for role {from} was stored in the datastore as the trusted {serve_as} document"),
+                    );
+                }
+            }
             match &r {
                 Err(client::LoadErr::Watchdog) => out.inconc("watchdog"),
                 Err(_) => {}
